@@ -3,7 +3,7 @@
 Every oracle is a validity predicate on the returned tables (parent / children / edges / traverse / trees / roots) against a
 reference graph built from the raw case (vlib.topo + vlib.ref_graph); no particular tree is ever expected.
 """
-import math, copy, contextlib
+import math, copy, contextlib, gc, random
 import numpy as np
 from collections import Counter
 from hypothesis import strategies as st
@@ -38,7 +38,13 @@ RULE = ("Meshes: generated polylines (paths, cycles, trees, random simple graphs
         "exclusion sets as set or frozenset; dict weights as float / int / np.float32 / np.float64 / np.uint8 values; sparse and dense "
         "weight attributes with a non-zero default and unwritten entries; MST geometry translated far from the origin (1e3..1e6 x size) and "
         "anisotropically scaled; an invalid traverse() call (bad order / uncomputed tree) that raises is followed by ordinary use. Face "
-        "trees: pairs of faces sharing two edges with exactly one of them forbidden are generated on purpose.")
+        "trees: pairs of faces sharing two edges with exactly one of them forbidden are generated on purpose. Sizes around powers of "
+        "two: paths of 255..258 vertices, and (sparsely) open paths of 32766..32775 and 65534..65541 vertices rooted at an end (hop depth "
+        "beyond int16 / uint16), stored compactly as {kind: path, n, stride}. Recycled objects: before the mesh of the case is built, "
+        "1-3 predecessor meshes with the same element counts but another numbering are built, spanned by the same kind of tree, dropped "
+        "and garbage collected (id()-keyed caches). The caller's exclusion set / weights object may be edited in place between the first "
+        "and the second tree (the second tree must follow the edit). copy.copy / copy.deepcopy of a computed tree answer like the "
+        "original. Polylines with shuffled vertex ids and edge order; sparse weight attributes written in decreasing index order.")
 ASSUMPTIONS = ["meshes are what the data model represents (simple 1-skeleton, manifold surfaces, conforming tet meshes); "
                "exclusion sets contain valid edge / face indices; dict weights give a finite float for every edge",
                "a volume mesh's boundary edges are the edges of its boundary faces (VolumeMesh.is_edge_on_border)"]
@@ -86,6 +92,17 @@ def polylines(draw):
         V = [[draw(st.floats(-3, 3)), draw(st.floats(-3, 3)), draw(st.floats(-3, 3))] for _ in range(n_tot)]
         V = [[float(round(x, 6)) for x in v] for v in V]
         tags.append("coords=float")
+    if n_tot > 1 and draw(st.booleans()):
+        # vertex ids scattered over the components, edges listed in another order (components interleaved)
+        rnd = random.Random(draw(st.integers(0, 10 ** 6)))
+        perm = list(range(n_tot)); rnd.shuffle(perm)
+        V2 = [None] * n_tot
+        for o, nw in enumerate(perm):
+            V2[nw] = V[o]
+        V = V2
+        E_tot = [[perm[a], perm[b]] for a, b in E_tot]
+        rnd.shuffle(E_tot)
+        tags.append("ids-shuffled")
     return {"kind": "polyline", "V": V, "E": E_tot, "tags": tags}
 
 
@@ -138,17 +155,54 @@ def big_meshes(draw):
 
 def any_mesh():
     small = st.one_of(polylines(), surface_meshes(), surface_meshes(), volume_meshes())
-    return st.integers(0, 59).flatmap(lambda i: big_meshes() if i == 59 else small)
+    return st.integers(0, 59).flatmap(lambda i: big_meshes() if i == 59 else pow2_paths() if i == 58 else small)
 
 
 def with_big(small, kinds):
     return st.integers(0, 59).flatmap(lambda i: big_meshes().filter(lambda m: m["kind"] in kinds) if i == 59 else small)
 
 
+def path_id(n, stride, pos):
+    """vertex id of the pos-th vertex along a compact path mesh (stride coprime with n: ids are scattered along the path)"""
+    return (pos * stride) % n
+
+
+def expand_mesh(mc):
+    """{"kind": "path", "n", "stride"} -> the polyline it stands for (kept compact in the case because n can exceed 65536)"""
+    if mc.get("kind") != "path":
+        return mc
+    n, s = int(mc["n"]), int(mc.get("stride", 1))
+    assert math.gcd(n, s) == 1
+    V = [None] * n
+    for pos in range(n):
+        V[path_id(n, s, pos)] = [0.5 * pos, float(pos % 3), 0.0]
+    E = [[path_id(n, s, pos), path_id(n, s, pos + 1)] for pos in range(n - 1)]
+    return {"kind": "polyline", "V": V, "E": E, "tags": list(mc.get("tags", []))}
+
+
+@st.composite
+def pow2_paths(draw):
+    """open paths with 255..258 vertices (element counts around 2**8), expanded at once: they are small"""
+    n = draw(st.sampled_from([255, 256, 257, 258]))
+    stride = draw(st.sampled_from([1, 7, 101]))
+    return expand_mesh({"kind": "path", "n": n, "stride": stride, "tags": ["base=path%d" % n, "pow2-size"]})
+
+
+@st.composite
+def deep_paths(draw):
+    """open paths whose hop depth from an end point crosses 2**15 or 2**16"""
+    n = draw(st.sampled_from([32766, 32767, 32768, 32769, 32770, 32775, 32775, 33001, 65534, 65536, 65537, 65541]))
+    stride = draw(st.sampled_from([1, 1, 7, 10007]))
+    while math.gcd(n, stride) != 1:
+        stride += 1
+    return {"kind": "path", "n": n, "stride": stride, "tags": ["base=deep-path", "deep>=2^%d" % (15 if n < 60000 else 16)]}
+
+
 class Model:
     """Reference adjacency of a realised mesh case, from the raw lists only."""
 
     def __init__(self, mesh_case):
+        mesh_case = expand_mesh(mesh_case)
         self.kind = mesh_case["kind"]
         self.V = mesh_case["V"]
         self.nV = len(self.V)
@@ -244,7 +298,10 @@ def draw_forms(draw):
     return {"idx": draw(st.sampled_from(["list", "list", "int64", "int32", "int16", "uint8"])),
             "np_int": draw(st.sampled_from(["int64", "int64", "int32", "uint8", "uint16"])),
             "ids_np": draw(st.integers(0, 3)) == 0, "frozen": draw(st.integers(0, 3)) == 0,
-            "explicit": draw(st.integers(0, 4)) == 0, "dup_warn": draw(st.booleans()), "bad_call": draw(st.integers(0, 2)) == 0}
+            "explicit": draw(st.integers(0, 4)) == 0, "dup_warn": draw(st.booleans()), "bad_call": draw(st.integers(0, 2)) == 0,
+            "recycle": draw(st.sampled_from([0, 0, 1, 2, 3])), "recycle_seed": draw(st.integers(0, 1000)),
+            "mutate_arg": draw(st.integers(0, 2)) == 0, "mutate_pick": draw(st.integers(0, 10 ** 6)),
+            "copies": draw(st.integers(0, 2)) == 0}
 
 
 def scaled(V, s):
@@ -253,6 +310,8 @@ def scaled(V, s):
 
 @st.composite
 def edge_tree_case(draw):
+    if draw(st.integers(0, 149)) == 149:
+        return draw(deep_edge_tree_case())
     mc = draw(any_mesh())
     mod = Model(mc)
     n, links = mod.links("vertex")
@@ -264,6 +323,25 @@ def edge_tree_case(draw):
          "avoid": avoid, "avoid_mode": mode, "sort": draw(st.booleans())}
     c.update(draw_history(draw, n))
     c["avoid_boundary2"] = draw(st.booleans())
+    return c
+
+
+@st.composite
+def deep_edge_tree_case(draw):
+    """breadth-first tree on a very long open path rooted at (or near) an end: hop depths beyond 2**15 - 1 (2**16 - 1)"""
+    mc = draw(deep_paths())
+    n, s = mc["n"], mc["stride"]
+    end = draw(st.sampled_from([0, 0, n - 1, 3]))
+    c = {"mesh": mc, "root": path_id(n, s, end), "avoid_boundary": draw(st.booleans()), "avoid": None, "avoid_mode": "none",
+         "sort": draw(st.booleans())}
+    if draw(st.integers(0, 2)) == 0:
+        # one avoided edge close to the far end: the tree stops there
+        pos = n - 2 - draw(st.integers(0, 40)) if end != n - 1 else draw(st.integers(0, 40))
+        c["avoid"] = [sorted([path_id(n, s, pos), path_id(n, s, pos + 1)])]
+        c["avoid_mode"] = "sparse"
+    c.update(draw_forms(draw))
+    c.update({"root2": path_id(n, s, draw(st.sampled_from([n - 1, n // 2, 0]))) if draw(st.booleans()) else None, "root_np": draw(st.booleans()),
+              "warm": False, "recycle": 0, "copies": False, "avoid_boundary2": draw(st.booleans()), "np_int": "int64"})
     return c
 
 
@@ -373,7 +451,7 @@ def cell_tree_case(draw):
 def forest_case(draw):
     what = draw(st.sampled_from(["edge", "edge", "face", "face", "cell"]))
     if what == "edge":
-        mc = draw(any_mesh())
+        mc = draw(deep_paths()) if draw(st.integers(0, 199)) == 199 else draw(any_mesh())
         c = {"what": what, "mesh": mc, "forbidden": None, "mode": "none", "sort": draw(st.booleans()),
              "twice": draw(st.booleans()), "warm": draw(st.integers(0, 2)) == 0}
         c.update(draw_forms(draw))
@@ -396,25 +474,40 @@ def forest_case(draw):
 
 # ============================================================================================ building
 
-def build(case, ctx):
-    """fresh mouette mesh + reference model + index maps (edge key -> edge id, face key -> face id)"""
+def variant_mesh(mc, seed):
+    """another mesh with exactly the same element counts as mc but a different numbering (vertex ids, element order)"""
+    if mc["kind"] == "surface":
+        V, F, _ = G.relabel(mc["V"], mc["F"], seed)
+        return {"kind": "surface", "V": V, "F": [list(map(int, f)) for f in F]}
+    if mc["kind"] == "volume":
+        V, C = T.relabel(mc["V"], mc["C"], seed, "mixed")
+        return {"kind": "volume", "V": V, "C": [list(map(int, c)) for c in C]}
+    rnd = random.Random(seed)
+    n = len(mc["V"])
+    perm = list(range(n)); rnd.shuffle(perm)
+    V = [None] * n
+    for o, nw in enumerate(perm):
+        V[nw] = mc["V"][o]
+    E = [[perm[a], perm[b]] for a, b in mc["E"]]
+    rnd.shuffle(E)
+    return {"kind": "polyline", "V": V, "E": E}
+
+
+def construct_mesh(case, mc, mod, ctx=None):
+    """the mouette mesh of the (expanded) mesh case mc, in the container forms asked by the case"""
     import mouette as M
-    M.config.sort_neighborhoods = bool(case.get("sort", True))
-    mc = case["mesh"]
-    mod = Model(mc)
     from mouette.mesh.mesh_data import RawMeshData
-    M.config.display_duplicate_attribute_warning = bool(case.get("dup_warn", False))
-    ctx.label("dup_warn=" + str(bool(case.get("dup_warn", False))))
+    lab = (lambda *a: ctx.label(*a)) if ctx is not None else (lambda *a: None)
     # index rows: python lists or numpy rows of a (narrow) integer dtype that can hold every vertex id
     idx = case.get("idx", "list")
     if idx != "list" and len(mc["V"]) > {"int64": 2 ** 62, "int32": 2 ** 31 - 1, "int16": 2 ** 15 - 1, "uint8": 255}[idx]:
         idx = "list"
-    ctx.label("index-rows=" + idx)
+    lab("index-rows=" + idx)
     row = (lambda r: list(int(x) for x in r)) if idx == "list" else (lambda r: np.array(r, dtype=idx))
     raw = RawMeshData()
     if case.get("int_coords"):
         raw.vertices += [[int(x) for x in v] for v in mc["V"]]       # integer-typed coordinates (int64 vectors)
-        ctx.label("coords=int-typed")
+        lab("coords=int-typed")
     else:
         raw.vertices += [list(map(float, v)) for v in mc["V"]]
     explicit = bool(case.get("explicit")) and mc["kind"] != "polyline"
@@ -422,19 +515,44 @@ def build(case, ctx):
         # edges (and the faces of cells) are declared by the caller instead of being completed by the library
         M.config.complete_edges_from_faces = False
         M.config.complete_faces_from_cells = False
-        ctx.label("explicit-edges-faces")
+        lab("explicit-edges-faces")
         raw.edges += [tuple(int(x) for x in e) if idx == "list" else row(e) for e in mod.edge_keys]
     if mc["kind"] == "polyline":
         raw.edges += [tuple(int(x) for x in e) if idx == "list" else row(e) for e in mc["E"]]
-        m = M.mesh.PolyLine(raw)
-    elif mc["kind"] == "surface":
+        return M.mesh.PolyLine(raw)
+    if mc["kind"] == "surface":
         raw.faces += [row(f) for f in mc["F"]]
-        m = M.mesh.SurfaceMesh(raw)
-    else:
-        if explicit:
-            raw.faces += [row(f) for f in sorted(mod.face_keys)]
-        raw.cells += [row(c) for c in mc["C"]]
-        m = M.mesh.VolumeMesh(raw)
+        return M.mesh.SurfaceMesh(raw)
+    if explicit:
+        raw.faces += [row(f) for f in sorted(mod.face_keys)]
+    raw.cells += [row(c) for c in mc["C"]]
+    return M.mesh.VolumeMesh(raw)
+
+
+def build(case, ctx, exercise=None):
+    """fresh mouette mesh + reference model + index maps (edge key -> edge id, face key -> face id).
+    exercise(mesh): what the sub-check does with a mesh; run on short-lived predecessor meshes when the case asks for recycling."""
+    import mouette as M
+    M.config.sort_neighborhoods = bool(case.get("sort", True))
+    mc = expand_mesh(case["mesh"])
+    mod = Model(mc)
+    M.config.display_duplicate_attribute_warning = bool(case.get("dup_warn", False))
+    ctx.label("dup_warn=" + str(bool(case.get("dup_warn", False))))
+    rounds = int(case.get("recycle", 0)) if (exercise is not None and len(mc["V"]) <= 3000) else 0
+    if rounds:
+        # object recycling: meshes of the same size (other numbering) are built, spanned, dropped and collected one after the
+        # other, so that the mesh of this case is likely to be allocated where an earlier one lived
+        ctx.label("recycled-mesh-objects")
+        for r in range(rounds):
+            vmc = variant_mesh(mc, int(case.get("recycle_seed", 0)) * 7 + r)
+            pm = construct_mesh(case, vmc, Model(vmc))
+            try:
+                exercise(pm)
+            except Exception:
+                pass                                   # the predecessors are history only; the mesh of the case is what is judged
+            del pm
+            gc.collect()
+    m = construct_mesh(case, mc, mod, ctx)
     if case.get("warm"):
         # the mesh object has been used before: connectivity and boundary caches exist, a persistent edge length is stored
         ctx.label("warm-mesh")
@@ -679,7 +797,8 @@ def check_spanning_tree(ctx, tag, tree, n, adm_links, root_expected, bfs=True, o
     ok = ctx.check(sorted(key(e) for e in edges) == from_parent, tag + "edges-vs-parent",
                    f"edges {sorted(key(e) for e in edges)[:10]} is not the set of (parent, child) pairs {from_parent[:10]}") and ok
     ok = check_children_inverse(ctx, tag, parent, children, n) and ok
-    outside = [v for v in range(n) if v not in set(reached) and children[v]]
+    rset = set(reached)
+    outside = [v for v in range(n) if v not in rset and children[v]]
     ctx.check(not outside, tag + "children-outside", f"unreached elements {outside[:5]} have children")
     depth = depths_from_parent(ctx, tag, parent, root, reached, n)
     if depth is not None and bfs:
@@ -740,10 +859,28 @@ def snapshot_tables(tree):
     return copy.deepcopy(([x for x in tree.parent], [list(c) for c in tree.children], [tuple(e) for e in tree.edges]))
 
 
-def run_trees(ctx, tag, case, n, make, adm1, adm2, argset, what):
+def check_copies(ctx, tag, tree, n):
+    """copy.copy / copy.deepcopy of a computed tree carry the same tables and traverse like the original"""
+    ctx.label("copies")
+    tabs = snapshot_tables(tree)
+    trav = list(tree.traverse("BFS")), list(tree.traverse("DFS"))
+    kinds = [("copy", copy.copy)] + ([("deepcopy", copy.deepcopy)] if n <= 300 else [])
+    for name, f in kinds:
+        ok, t2 = ctx.call(tag + name, f, tree)
+        if not ok:
+            continue
+        ok, res = ctx.call(tag + name + ":use", lambda: (snapshot_tables(t2), (list(t2.traverse("BFS")), list(t2.traverse("DFS"))), t2.root))
+        if ok:
+            ctx.check(res[0] == tabs and res[1] == trav and res[2] == tree.root, tag + name + ":differs",
+                      f"the {name} of the tree has other tables / another traversal than the tree itself")
+    ctx.check(snapshot_tables(tree) == tabs, tag + "copy:original-changed", "copying the tree changed it")
+
+
+def run_trees(ctx, tag, case, n, make, adm_fn, argset, what, all_ids):
     """First tree (root `root`), then - if the case has `root2` - a second tree on the SAME mesh object built with the SAME
-    exclusion-set object.  make(root, second) returns a constructed (not computed) tree."""
-    snap = None if argset is None else set(argset)
+    exclusion-set object (possibly edited in place by the caller in between).  make(root, second) returns a constructed (not
+    computed) tree; adm_fn(excluded ids, second) the admissible links; all_ids the valid ids for the exclusion set."""
+    snap = [None if argset is None else set(argset)]
     if case["root"] is not None and case.get("root_np"):
         ctx.label("root-type=numpy")
     if argset is not None:
@@ -752,9 +889,10 @@ def run_trees(ctx, tag, case, n, make, adm1, adm2, argset, what):
     def unchanged(t):
         if argset is None:
             return True
-        return ctx.check(argset == snap, t + "input-mutated",
-                         f"the caller's {what} set was modified by the tree: {len(snap)} ids before, {len(argset)} after "
-                         f"(added {sorted(argset - snap)[:8]}, removed {sorted(snap - argset)[:8]})")
+        sn = snap[0]
+        return ctx.check(argset == sn, t + "input-mutated",
+                         f"the caller's {what} set was modified by the tree: {len(sn)} ids before, {len(argset)} after "
+                         f"(added {sorted(argset - sn)[:8]}, removed {sorted(sn - argset)[:8]})")
     ok, tree = ctx.call(tag + "construct", lambda: make(np_root(case, case["root"]), False))
     if not ok:
         return
@@ -769,13 +907,27 @@ def run_trees(ctx, tag, case, n, make, adm1, adm2, argset, what):
         return
     ctx.check(r is tree, tag + "call-returns-self", "tree() does not return the tree")
     unchanged(tag)
-    reached = check_spanning_tree(ctx, tag, tree, n, adm1, case["root"], bfs=True)
+    reached = check_spanning_tree(ctx, tag, tree, n, adm_fn(argset, False), case["root"], bfs=True)
+    if reached is None:
+        return
+    if case.get("copies"):
+        check_copies(ctx, tag, tree, n)
     r2 = case.get("root2")
-    if r2 is None or reached is None:
+    if r2 is None:
         return
     ctx.label("second-tree")
     tabs1 = snapshot_tables(tree)
     trav1 = list(tree.traverse("BFS")), list(tree.traverse("DFS"))
+    if case.get("mutate_arg") and isinstance(argset, set) and all_ids:
+        # the caller edits the exclusion set in place before asking for another tree: the new tree follows the edited set,
+        # the tree that already exists stays as it was
+        x = sorted(all_ids)[int(case.get("mutate_pick", 0)) % len(all_ids)]
+        if x in argset:
+            argset.discard(x)
+        else:
+            argset.add(np.int64(x) if case.get("ids_np") else int(x))
+        snap[0] = set(argset)
+        ctx.label("argument-edited-in-place")
     t2 = tag + "second:"
     ok, tree2 = ctx.call(t2 + "construct", lambda: make(np_root(case, r2), True))
     if not ok:
@@ -784,7 +936,7 @@ def run_trees(ctx, tag, case, n, make, adm1, adm2, argset, what):
     if not ok:
         return
     unchanged(t2)
-    check_spanning_tree(ctx, t2, tree2, n, adm2, r2, bfs=True)
+    check_spanning_tree(ctx, t2, tree2, n, adm_fn(argset, True), r2, bfs=True)
     ctx.check(snapshot_tables(tree) == tabs1, tag + "first-tree-changed",
               "building a second tree on the same mesh changed the tables of the first tree")
     ctx.check((list(tree.traverse("BFS")), list(tree.traverse("DFS"))) == trav1, tag + "first-tree-traverse-changed",
@@ -795,7 +947,10 @@ def run_trees(ctx, tag, case, n, make, adm1, adm2, argset, what):
 
 def fn_edge_tree(case, ctx):
     from mouette.processing import trees
-    m, mod, eid, fid, ok = build(case, ctx)
+    ab1 = bool(case["avoid_boundary"])
+    ab2 = bool(case.get("avoid_boundary2", ab1))
+    m, mod, eid, fid, ok = build(case, ctx, exercise=lambda pm: (trees.EdgeSpanningTree(pm, 0, avoid_boundary=ab1)(),
+                                                                   trees.EdgeSpanningTree(pm, 0, avoid_boundary=True)()))
     if not ok:
         return
     n, links, adm, avoid = admissible_edge_links(mod, case["avoid"], case["avoid_boundary"])
@@ -804,11 +959,16 @@ def fn_edge_tree(case, ctx):
     avoid_ids = id_set(case, None if case["avoid"] is None else [eid[key(e)] for e in case["avoid"]])
     if mod.kind == "surface" and case["avoid_boundary"] and case["avoid"] is None and not case.get("sort", True):
         ctx.label("avoid-boundary-only+unsorted-fans")
-    ab1 = bool(case["avoid_boundary"])
-    ab2 = bool(case.get("avoid_boundary2", ab1))
-    _, _, adm2, _ = admissible_edge_links(mod, case["avoid"], ab2)
+    key_of = {i: e for e, i in eid.items()}
+    border = set(mod.border_edges) if mod.kind != "polyline" else set()
+
+    def adm_fn(ids, second):
+        excl = set(key_of[int(i)] for i in (ids or ()))
+        if (ab2 if second else ab1):
+            excl |= border
+        return [(a, b, c) for a, b, c in links if c not in excl]
     make = lambda root, second: trees.EdgeSpanningTree(m, root, avoid_boundary=(ab2 if second else ab1), avoid_edges=avoid_ids)
-    run_trees(ctx, "edge_tree:", case, n, make, adm, adm2, avoid_ids, "avoid_edges")
+    run_trees(ctx, "edge_tree:", case, n, make, adm_fn, avoid_ids, "avoid_edges", sorted(key_of))
 
 
 # -------------------------------------------------------------------------------------------- sub-check: MST
@@ -905,7 +1065,9 @@ def check_mst(ctx, tag, tree, n, adm, w, wm, root_expected):
 def fn_mst(case, ctx):
     import mouette as M
     from mouette.processing import trees
-    m, mod, eid, fid, ok = build(case, ctx)
+    ex_w = case["weights_mode"] if case["weights_mode"] in ("one", "length") else "one"
+    m, mod, eid, fid, ok = build(case, ctx, exercise=lambda pm: (trees.EdgeMinimalSpanningTree(pm, 0, avoid_boundary=bool(case["avoid_boundary"]), weights=ex_w)(),
+                                                                   trees.EdgeMinimalSpanningTree(pm, 0, avoid_boundary=True, weights="one")()))
     if not ok:
         return
     nE = len(mod.edge_keys)
@@ -977,7 +1139,8 @@ def fn_mst(case, ctx):
                 arg = m.edges.create_attribute("c10_weight", float, dense=(wm == "attr_dense"))
             else:
                 arg = m.edges.create_attribute("c10_weight", float, dense=(wm == "attr_dense"), default_value=float(dflt))
-            for a, b, x in case["weights"]:
+            wl = sorted(case["weights"], key=lambda t: eid[key(t[0], t[1])], reverse=bool(case.get("dict_rev")))
+            for a, b, x in wl:                          # written in increasing or decreasing index order
                 arg[eid[key(a, b)]] = float(x)
             unwritten = len(mod.edge_keys) - len(case["weights"])
             ctx.label("attr-default=" + ("type-default" if dflt is None else "zero" if dflt == 0 else "non-zero")
@@ -1005,6 +1168,8 @@ def fn_mst(case, ctx):
     untouched("mst:")
     if not check_mst(ctx, "mst:", tree, n, adm, w, wm, case["root"]):
         return
+    if case.get("copies"):
+        check_copies(ctx, "mst:", tree, n)
     r2 = case.get("root2")
     if r2 is None:
         return
@@ -1013,6 +1178,14 @@ def fn_mst(case, ctx):
     ctx.label("second-tree", "second-weights=" + mode2)
     arg2, w2, wm2 = (arg, w, wm) if mode2 == "same" else ("one", w_one, "one") if mode2 == "one" else ("length", w_len, "length")
     tabs1 = snapshot_tables(tree)
+    if mode2 == "same" and wm in ("dict", "attr", "attr_dense") and case.get("mutate_arg") and mod.edge_keys:
+        # the caller rewrites one weight in the same dict / attribute object before asking for another tree
+        ek = mod.edge_keys[int(case.get("mutate_pick", 0)) % len(mod.edge_keys)]
+        newv = float(w[ek]) + 10.0 if int(case.get("mutate_pick", 0)) % 2 else -5.0
+        arg[eid[ek]] = newv
+        w2 = dict(w); w2[ek] = newv
+        arg_snap = arg_snapshot()
+        ctx.label("argument-edited-in-place")
     trav1 = list(tree.traverse("BFS")), list(tree.traverse("DFS"))
     ok, tree2 = ctx.call("mst:second:construct", lambda: trees.EdgeMinimalSpanningTree(m, np_root(case, r2), avoid_boundary=ab, weights=arg2))
     if not ok:
@@ -1031,7 +1204,7 @@ def fn_mst(case, ctx):
 
 def fn_face_tree(case, ctx):
     from mouette.processing import trees
-    m, mod, eid, fid, ok = build(case, ctx)
+    m, mod, eid, fid, ok = build(case, ctx, exercise=lambda pm: trees.FaceSpanningTree(pm, 0)())
     if not ok:
         return
     n, links = mod.links("face")
@@ -1046,14 +1219,16 @@ def fn_face_tree(case, ctx):
         if any(0 < len([e for e in sh if e in forb]) < len(sh) for sh in dbl.values()):
             ctx.label("faces-sharing-two-edges:partly-forbidden")
     make = lambda root, second: trees.FaceSpanningTree(m, root, forb_ids)
-    run_trees(ctx, "face_tree:", case, n, make, adm, adm, forb_ids, "forbidden_edges")
+    key_of = {i: e for e, i in eid.items()}
+    adm_fn = lambda ids, second: [(a, b, c) for a, b, c in links if c not in set(key_of[int(i)] for i in (ids or ()))]
+    run_trees(ctx, "face_tree:", case, n, make, adm_fn, forb_ids, "forbidden_edges", sorted(key_of))
 
 
 # -------------------------------------------------------------------------------------------- sub-check: cell tree
 
 def fn_cell_tree(case, ctx):
     from mouette.processing import trees
-    m, mod, eid, fid, ok = build(case, ctx)
+    m, mod, eid, fid, ok = build(case, ctx, exercise=lambda pm: trees.CellSpanningTree(pm, 0)())
     if not ok:
         return
     n, links = mod.links("cell")
@@ -1063,14 +1238,17 @@ def fn_cell_tree(case, ctx):
     label_common(ctx, n, links, adm, case["root"], bool(forb & set(c for _, _, c in links)))
     forb_ids = id_set(case, None if case["forbidden"] is None else [fid[key(f)] for f in case["forbidden"]])
     make = lambda root, second: trees.CellSpanningTree(m, root, forb_ids)
-    run_trees(ctx, "cell_tree:", case, n, make, adm, adm, forb_ids, "forbidden_faces")
+    key_of = {i: f for f, i in fid.items()}
+    adm_fn = lambda ids, second: [(a, b, c) for a, b, c in links if c not in set(key_of[int(i)] for i in (ids or ()))]
+    run_trees(ctx, "cell_tree:", case, n, make, adm_fn, forb_ids, "forbidden_faces", sorted(key_of))
 
 
 # -------------------------------------------------------------------------------------------- sub-check: forests
 
 def fn_forest(case, ctx):
     from mouette.processing import trees
-    m, mod, eid, fid, ok = build(case, ctx)
+    fcls = {"edge": trees.EdgeSpanningForest, "face": trees.FaceSpanningForest, "cell": trees.CellSpanningForest}[case["what"]]
+    m, mod, eid, fid, ok = build(case, ctx, exercise=lambda pm: fcls(pm)())
     if not ok:
         return
     what = case["what"]
